@@ -71,6 +71,19 @@ def generate(seed):
 # --------------------------------------------------------------------------
 
 
+def core_rt(rt):
+    """A rule test's verdict without its textual report (the report has its
+    own oracle; if it were part of the reference, a report that raises would
+    raise on both sides and be skipped as 'undefined')."""
+    return (
+        "rt",
+        rt.tested,
+        rt.is_valid,
+        rt.num_failures,
+        tuple((f.index, snap(f.value), snap(f.path), snap(f.reasons)) for f in rt.failures),
+    )
+
+
 def exec_op(world, op):
     _, si, di = op
     try:
@@ -91,7 +104,7 @@ def reference(world, ri, di):
         fresh = World(world.term)
         try:
             rt = fresh.get("rules", ri).test(fresh.get("docs", di))
-            st["ref"][key] = ("ok", canon_rt(rt))
+            st["ref"][key] = ("ok", core_rt(rt))
         except Exception as e:
             st["ref"][key] = ("raise", type(e).__name__)
     return st["ref"][key]
@@ -136,7 +149,7 @@ def on_boundary(eng, c, k, op, out):
     # each rule test equals its rule's own verdict
     for pos, (ri, rf, rt) in enumerate(zip(model, refs, vd.rule_tests)):
         try:
-            got = canon_rt(rt)
+            got = core_rt(rt)
         except Exception as e:
             got = ("raise", type(e).__name__)
         if got != rf[1]:
@@ -175,6 +188,18 @@ def on_boundary(eng, c, k, op, out):
         return vio
     pairs = []
     for ri, rt in zip(model, vd.rule_tests):
+        # the per-rule report, too, is a str naming the rule's failing paths
+        try:
+            rrep = rt.get_failures_string()
+        except Exception as e:
+            rrep = ("raise", type(e).__name__)
+        if not isinstance(rrep, str):
+            vio.append(dict(oracle="report_not_str", locus="rule_test", detail={"op": op, "rule": ri, "got": repr(rrep)[:200]}))
+            return vio
+        for f in rt.failures:
+            if repr(f.path) not in rrep:
+                vio.append(dict(oracle="report_omits_path", locus="rule_test", detail={"op": op, "rule": ri, "path": repr(f.path)}))
+                return vio
         for f in rt.failures:
             pairs.append((ri, snap(f.path)))
             if repr(f.path) not in report:
